@@ -93,7 +93,7 @@ def P_for(gen_cfg, n_random, design, num):
     }
 
 
-P = P_for("Gen_sim.cfg", (100, 900), DESIGN, (35, 400))
+P = P_for("Gen_sim.cfg", (250, 2500), DESIGN, (60, 1000))
 
 REPROS = [
     ("F1-early-delete-forgets-belief", "repro_F1_early_delete.json",
@@ -164,8 +164,10 @@ def defect_design_leg(ctx):
 def extra_behaviours(ctx):
     """Behaviours from the other generator configurations (RemoveExternalRoutes off; conntrack cleanup on),
     replayed in the same driver run as the main generator's."""
-    paths = []
-    for cfg, num in (("Gen_sim_noext.cfg", (0, 200)), ("Gen_sim_ct.cfg", (25, 200))):
+    # directed scenarios (always the same): interrupted route dump with the delivered route gone before the retry;
+    # same-class same-destination conflicts with the winner / the loser / the winner's interface withdrawing
+    paths = [os.path.join(core.SPECS, SPECDIR, "scenarios.json")]
+    for cfg, num in (("Gen_sim_noext.cfg", (0, 400)), ("Gen_sim_ct.cfg", (40, 400))):
         if ctx.quick and not num[0]:
             continue        # RemoveExternalRoutes = false is covered by the seeded random histories in the quick tier
         sim = {"num": num[0] if ctx.quick else num[1], "depth": 700}
